@@ -6,6 +6,7 @@ import (
 	"fmt"
 	"reflect"
 	"sort"
+	"strconv"
 	"strings"
 	"unsafe"
 
@@ -274,7 +275,7 @@ func (wr *Writer) tightMap(rv reflect.Value, si *sinfo) {
 	wr.buf = append(wr.buf, '{')
 	keys := rv.MapKeys()
 	if wr.Sort {
-		sort.Slice(keys, func(i, j int) bool { return 0 > strings.Compare(keys[i].String(), keys[j].String()) })
+		sort.Slice(keys, func(i, j int) bool { return 0 > strings.Compare(keyString(keys[i]), keyString(keys[j])) })
 	}
 	comma := false
 	for _, kv := range keys {
@@ -290,32 +291,32 @@ func (wr *Writer) tightMap(rv reflect.Value, si *sinfo) {
 		}
 		switch rm.Kind() {
 		case reflect.Struct:
-			wr.buf = ojg.AppendSENString(wr.buf, kv.String(), !wr.HTMLUnsafe)
+			wr.buf = ojg.AppendSENString(wr.buf, keyString(kv), !wr.HTMLUnsafe)
 			wr.buf = append(wr.buf, ':')
 			wr.tightStruct(rm, si)
 		case reflect.Slice, reflect.Array:
 			if (wr.OmitNil || wr.OmitEmpty) && rm.Len() == 0 {
 				continue
 			}
-			wr.buf = ojg.AppendSENString(wr.buf, kv.String(), !wr.HTMLUnsafe)
+			wr.buf = ojg.AppendSENString(wr.buf, keyString(kv), !wr.HTMLUnsafe)
 			wr.buf = append(wr.buf, ':')
 			wr.tightSlice(rm, si)
 		case reflect.Map:
 			if (wr.OmitNil || wr.OmitEmpty) && rm.Len() == 0 {
 				continue
 			}
-			wr.buf = ojg.AppendSENString(wr.buf, kv.String(), !wr.HTMLUnsafe)
+			wr.buf = ojg.AppendSENString(wr.buf, keyString(kv), !wr.HTMLUnsafe)
 			wr.buf = append(wr.buf, ':')
 			wr.tightMap(rm, si)
 		case reflect.String:
 			if (wr.OmitNil || wr.OmitEmpty) && rm.Len() == 0 {
 				continue
 			}
-			wr.buf = ojg.AppendSENString(wr.buf, kv.String(), !wr.HTMLUnsafe)
+			wr.buf = ojg.AppendSENString(wr.buf, keyString(kv), !wr.HTMLUnsafe)
 			wr.buf = append(wr.buf, ':')
 			wr.appendSEN(rm.Interface(), 0)
 		default:
-			wr.buf = ojg.AppendSENString(wr.buf, kv.String(), !wr.HTMLUnsafe)
+			wr.buf = ojg.AppendSENString(wr.buf, keyString(kv), !wr.HTMLUnsafe)
 			wr.buf = append(wr.buf, ':')
 			wr.appendSEN(rm.Interface(), 0)
 		}
@@ -327,4 +328,18 @@ func (wr *Writer) tightMap(rv reflect.Value, si *sinfo) {
 	} else {
 		wr.buf = append(wr.buf, '}')
 	}
+}
+
+// keyString returns the text a map key is written as. That is the string
+// itself or, for a key of an integer type, its digits as with encoding/json.
+func keyString(kv reflect.Value) string {
+	switch kv.Kind() {
+	case reflect.String:
+		return kv.String()
+	case reflect.Int, reflect.Int8, reflect.Int16, reflect.Int32, reflect.Int64:
+		return strconv.FormatInt(kv.Int(), 10)
+	case reflect.Uint, reflect.Uint8, reflect.Uint16, reflect.Uint32, reflect.Uint64, reflect.Uintptr:
+		return strconv.FormatUint(kv.Uint(), 10)
+	}
+	return fmt.Sprint(kv.Interface())
 }
